@@ -124,6 +124,8 @@ def run_ca_case(case):
 def run_hook_case(case):
     """One hook of one class misbehaves at its k-th invocation."""
     hp = {'exit': {case['hook']: [0] * case['at'] + [case['exit']]}}
+    if case.get('noise'):
+        hp['noise'] = {case['hook']: case['noise']}
     if case.get('post_exit') is not None:
         # the post-operation hook itself exits non-zero whenever it runs (say, a reload command that only works after a success)
         hp['exit']['h_post'] = [case['post_exit']] * 50
@@ -406,6 +408,19 @@ def gen(tier):
             act = {'action': 'add_headers', 'headers': {'Retry-After': ra}, 'label': 'retry-after:' + ra[:5]}
             ca_cases.append({'n_ids': 1, 'kind': kind, 'nth': nth, 'label': act['label'], 'ca_cfg': {'authz_pending_polls': 2, 'order_ready_polls': 1, 'order_valid_polls': 2},
                              'rules': [F.rule(kind, nth, act, attempt=2, tx_from=0, tx_to=None)]})
+    # problem documents whose human-readable text is long and not ASCII (multi-byte characters at every offset near round lengths)
+    texts = ['ご指定の識別子は発行ポリシーにより拒否されました。', 'Η αίτηση απορρίφθηκε από την πολιτική έκδοσης. ', 'Demande refusée : identifiant non autorisé par la politique d’émission. ', '🔒🚫 ']
+    for k, total in enumerate((120, 255, 256, 500, 501, 502, 1000, 1024, 4096, 70000) if tier != 'quick' else (255, 500, 501, 502, 1024, 4096)):
+        for pad in ((0, 1, 2) if total in (500, 501, 502) or tier != 'quick' else (k % 3,)):
+            t = texts[(k + pad) % len(texts)]
+            detail = 'x' * pad + t * (total // len(t.encode()) + 1)
+            kind, nth = [('newOrder', 0), ('finalize', 0), ('challenge', 0), ('authz', 0)][(k + pad) % 4]
+            act = {'action': 'acme_error', 'type': 'rejectedIdentifier' if kind == 'newOrder' else 'unauthorized', 'status': 403, 'detail': detail, 'label': 'long-detail:%d+%d' % (total, pad)}
+            ca_cases.append({'n_ids': 1, 'kind': kind, 'nth': nth, 'label': act['label'], 'rules': [F.rule(kind, nth, act, attempt=2)]})
+    # talkative hooks: more output on both streams than a pipe holds, no redirection configured
+    for hook in HOOK_CLASSES:
+        for noise in ((70000, 1 << 20) if tier == 'quick' else (4096, 65536, 70000, 300000, 1 << 20)):
+            hook_cases.append({'hook': hook, 'exit': 0 if len(hook_cases) % 2 else 1, 'at': 0, 'noise': noise, 'i': len(hook_cases)})
     state = []
     for ks in ('empty', 'garbage', 'cut-in-half', 'cut-tail', 'cert-instead', 'valid-same-type', 'valid-other-type', 'absent'):
         for reuse in (True, False):
@@ -427,7 +442,7 @@ def sig(cls, case, part):
     if part == 'hook':
         if cls == 'no-pause':
             return 'C07|no-pause|after-failed-attempt'
-        return 'C07|%s|hook-fault|%s|%s' % (cls, case['hook'], 'unspawnable' if case.get('unspawnable') else 'exit')
+        return 'C07|%s|hook-fault|%s|%s' % (cls, case['hook'], 'unspawnable' if case.get('unspawnable') else 'talkative' if case.get('noise') else 'exit')
     if part == 'multi':
         if cls == 'no-pause':
             return 'C07|no-pause|after-failed-attempt'
@@ -471,7 +486,7 @@ def run(tier):
     chk.exhaustive = (tier == 'thorough')
     chk.rule = ('CA/network single faults (position x action%s), random multi-fault sequences over 3-6 attempts, hook faults '
                 '(5 hook classes x exit codes/signal/unspawnable x invocation index), certificate sets of 2-6 with a failing subset or with the shared account forgotten while orders arrive, '
-                'the same recoverable error answered to every try of one request, polling answers carrying Retry-After, a second well-behaved hook after the failing one, unusable / foreign private-key files left on disk with and without kp_reuse, shipped binary with real waits; distinct = cases whose fault was observed to fire' % (', complete for 1 identifier' if tier == 'thorough' else ', stratified sample'))
+                'the same recoverable error answered to every try of one request, problem documents with long non-ASCII texts (255 to 70000 octets, every alignment around 500), hooks writing up to 1 MiB on both output streams without redirection, polling answers carrying Retry-After, a second well-behaved hook after the failing one, unusable / foreign private-key files left on disk with and without kp_reuse, shipped binary with real waits; distinct = cases whose fault was observed to fire' % (', complete for 1 identifier' if tier == 'thorough' else ', stratified sample'))
     chk.assumptions = ['attempt = directory fetch .. post-operation hook', 'CLOCK_MONOTONIC shared by hookrec and mockca',
                        'the verification build pauses 1 s after a failed attempt (shipped value: see DESIGN), all other waits are 0']
     rc = chk.finish()
